@@ -336,7 +336,8 @@ def cases(tier):
           RainbowLearn(2, 0, 1, per=True, nstep=False, combined=False, B=2), RainbowLearn(2, 0, 1, per=False, nstep=True, combined=True),
           RainbowLearn(2, 0, 1, per=False, nstep=False, combined=False, B=2)]
     if tier == "thorough":
-        cs += [RainbowLoss(7, -3, 3), RainbowLoss(9, -4, 4), RainbowLoss(3, -1, 3, B=2), RainbowLoss(5, 0, 4, A=3), RainbowLoss(9, 0, 200),
-               RainbowLearn(2, 0, 1, per=False, nstep=True, combined=False, B=2),
+        # path counts grow quickly: ~2 x 3^(atoms-1) per batch row (squared for batch 2 and for learn() with an n-step batch)
+        cs += [RainbowLoss(7, -3, 3), RainbowLoss(9, -4, 4), RainbowLoss(3, -1, 3, B=2), RainbowLoss(5, 0, 4, A=3), RainbowLoss(5, 0, 100),
+               RainbowLearn(2, 0, 1, per=False, nstep=True, combined=False),
                RainbowLearn(3, -2, 2, per=True, nstep=True, combined=True)]
     return cs
